@@ -44,6 +44,8 @@ class Interp(object):
         self.rejected = False
         self.max_depth = max_depth
         self.worker_calls = []
+        self.ns_reordered = None  # why the option lists of a rebuilt namespace may no longer be in the order given
+        self.order_events = []
 
     # ------------------------------------------------------------------ expressions
     def fold(self, e, env):
@@ -82,6 +84,8 @@ class Interp(object):
             self.ev(e.slice, env, fn, depth) if not isinstance(e.slice, ast.Slice) else None
             if b == NONE:
                 self.hit(e, "subscript of an option that was not given: %s" % src(e, 60), fn)
+            if b == GIVEN and self.ns_reordered and isinstance(e.slice, ast.Constant) and isinstance(e.slice.value, int):
+                self.order_events.append((e, self.ns_reordered, fn))
             v = self.fold(e, env)
             if v is not UNKNOWN and isinstance(v, (str, int, tuple)):
                 return ("const", v)
@@ -256,6 +260,9 @@ class Interp(object):
             for k in e.keywords:
                 if k.arg is None and isinstance(k.value, ast.DictComp):
                     ve = k.value.value
+                    why = _may_reorder(self.prog, ve)
+                    if why:
+                        self.ns_reordered = why
                     preserves = isinstance(ve, ast.IfExp) and any(isinstance(c, ast.Compare) and isinstance(c.ops[0], ast.Is) and isinstance(c.comparators[0], ast.Constant) and c.comparators[0].value is None
                                                                   for c in ast.walk(ve.test)) and isinstance(ve.body, ast.Name)
                     self.comp(k.value, env, fn, depth)
@@ -496,6 +503,33 @@ class Rejected(Exception):
     pass
 
 
+ORDER_CHANGING = {"builtins.sorted", "builtins.set", "builtins.frozenset", "builtins.reversed", "random.shuffle", "random.sample"}
+
+
+def _may_reorder(prog, e, depth=0):
+    """does evaluating `e` pass a list through sorted / set / reversed (directly or in a package function it calls)?"""
+    if depth > 3:
+        return None
+    for c in ast.walk(e):
+        if not isinstance(c, ast.Call):
+            continue
+        funcs = [c.func.body, c.func.orelse] if isinstance(c.func, ast.IfExp) else [c.func]
+        for f in funcs:
+            if not isinstance(f, (ast.Name, ast.Attribute)):
+                continue
+            en = prog.ext_name(f, c)
+            if en in ORDER_CHANGING:
+                return "%s(...)" % en.split(".")[-1]
+            for t in prog.resolve_expr_fn(f, c):
+                if isinstance(t, FunctionInfo) and isinstance(t.node, ast.FunctionDef):
+                    for r in ast.walk(t.node):
+                        if isinstance(r, ast.Return) and r.value is not None:
+                            w = _may_reorder(prog, r.value, depth + 1)
+                            if w:
+                                return "%s in %s" % (w, t.qualname)
+    return None
+
+
 def rule_cli2(prog, rep, tier, anchor="__main__.main", sub="sync"):
     model = cli_model(prog)
     opts = model[sub]
@@ -513,6 +547,7 @@ def rule_cli2(prog, rep, tier, anchor="__main__.main", sub="sync"):
     if branch is None:
         raise AnalysisError("CLI-2: no `command == %r` branch in main" % sub)
     seen = {}
+    order_seen = {}
     n_states = n_accepted = 0
     worker_reached = False
     for truth in sorted(truth_opt.choices):
@@ -536,6 +571,8 @@ def rule_cli2(prog, rep, tier, anchor="__main__.main", sub="sync"):
             for node, what, fn in it.events:
                 key = (fn.qualname, node.lineno, node.col_offset, what)
                 seen.setdefault(key, (node, what, fn, []))[3].append((truth, dict(zip(nullable, combo))))
+            for node, why, fn in it.order_events:
+                order_seen.setdefault((fn.qualname, src(node, 60)), (node, why, fn))
     if not worker_reached:
         raise AnalysisError("CLI-2: the interpreter never reached the worker from main's %s branch" % sub)
     by_construct = {}
@@ -552,5 +589,10 @@ def rule_cli2(prog, rep, tier, anchor="__main__.main", sub="sync"):
                 "CLI-2", q, "none-deref:%s" % src(node, 60),
                 "%s; reachable for %d accepted/unrejected option combination(s), e.g. --truth %s with only %s given"
                 % (what, len(states), truth, ", ".join("--" + g.replace("_", "-") for g in given) or "nothing"), loc(prog, node)))
+    for (q, text), (node, why, fn) in sorted(order_seen.items()):
+        rep.violation(Finding(
+            "CLI-2", q, "positional-use-of-reordered-list:%s" % text,
+            "%s takes an element by position from an option list that the rebuilt namespace passed through %s: which file is `the first` (the truth) "
+            "no longer depends on the order given on the command line" % (text, why), loc(prog, node)))
     rep.ob("CLI-2", "%d option-presence states x truth kinds interpreted through main and the sync worker; %d not rejected" % (n_states, n_accepted),
            "holds" if not seen else "violation", loc(prog, branch), "%d None-dereference site(s)" % len(seen))
